@@ -373,6 +373,7 @@ func (g *Generation) close() {
 // progress for this consumer and potentially cause consumer group membership
 // churn.
 func (g *Generation) Start(fn func(ctx context.Context)) {
+	verifPoint("gen.start")
 	g.lock.Lock()
 	defer g.lock.Unlock()
 
@@ -394,6 +395,7 @@ func (g *Generation) Start(fn func(ctx context.Context)) {
 
 	go func() {
 		fn(genCtx{g})
+		verifPoint("gen.fnExit")
 		g.lock.Lock()
 		// shut down the generation as soon as one function exits.  this is
 		// different from close() in that it doesn't wait for all go routines in
@@ -754,6 +756,7 @@ func (cg *ConsumerGroup) run() {
 			memberID = ""
 			backoff = time.After(cg.config.JoinGroupBackoff)
 		}
+		verifPoint("cgroup.errPending")
 		// ensure that we exit cleanly in case the CG is done and no one is
 		// waiting to receive on the unbuffered error channel.
 		select {
@@ -853,6 +856,7 @@ func (cg *ConsumerGroup) nextGeneration(memberID string) (string, error) {
 	// we can send it on the channel, exit.  that case is required b/c the next
 	// channel is unbuffered.  if the caller to Next has already bailed because
 	// it's own teardown logic has been invoked, this would deadlock otherwise.
+	verifPoint("cgroup.beforeNext")
 	select {
 	case <-cg.done:
 		gen.close()
